@@ -255,3 +255,52 @@ func (h *handle) Close() error {
 	h.s.ev(Event{Kind: "close", Exit: true, Name: h.name})
 	return nil
 }
+
+// NullProvider is a storage that keeps nothing: writes are discarded, reads return zeros, any size can be
+// "allocated". It records the names and sizes passed to Open.
+type NullProvider struct {
+	mu    sync.Mutex
+	Opens []NullOpen
+	Root  string
+}
+
+type NullOpen struct {
+	Torrent string
+	Name    string
+	Size    int64
+}
+
+type nullStorage struct {
+	p  *NullProvider
+	id string
+}
+
+func (p *NullProvider) GetStorage(id string) (storage.Storage, error) {
+	return &nullStorage{p: p, id: id}, nil
+}
+func (s *nullStorage) RootDir() string { return filepath.Join(s.p.Root, s.id) }
+func (s *nullStorage) Open(name string, size int64) (storage.File, bool, error) {
+	s.p.mu.Lock()
+	if len(s.p.Opens) < 100000 {
+		s.p.Opens = append(s.p.Opens, NullOpen{s.id, name, size})
+	}
+	s.p.mu.Unlock()
+	return nullFile{}, false, nil
+}
+
+func (p *NullProvider) Snapshot() []NullOpen {
+	p.mu.Lock()
+	defer p.mu.Unlock()
+	return append([]NullOpen(nil), p.Opens...)
+}
+
+type nullFile struct{}
+
+func (nullFile) ReadAt(b []byte, off int64) (int, error) {
+	for i := range b {
+		b[i] = 0
+	}
+	return len(b), nil
+}
+func (nullFile) WriteAt(b []byte, off int64) (int, error) { return len(b), nil }
+func (nullFile) Close() error                             { return nil }
